@@ -43,7 +43,9 @@ def keep(r):
         return "-r7m" in name
     if sel == "round8":
         return "-r8g" in name
-    return not name.startswith("refactor-") and not any(t in name for t in ("-r2m", "-r3m", "-r4m", "-r5m", "-r6m", "-r7m", "-r8g"))
+    if sel == "round9":
+        return "-r9h" in name
+    return not name.startswith("refactor-") and not any(t in name for t in ("-r2m", "-r3m", "-r4m", "-r5m", "-r6m", "-r7m", "-r8g", "-r9h"))
 if sel == "refactor":
     print("| refactoring | change (behaviour preserving; the suite passes) | checks that raise an alarm |")
 else:
